@@ -1,6 +1,14 @@
 package main
 
+// C06 - HTTP/2 connections respect everything the peer advertised.
+//  part 1 (flowops.go): the flow.go kernel on random op sequences (real inflow/outflow via hook)
+//  part 2 (package c06peer): trace validation of the real client against a strict monitoring
+//          HTTP/2 peer; every recorded trace is judged by the Go oracle and replayed through the
+//          Coq monitor_step.
+//  gosync (gosync.go): flow.go -> coq/Gen/H2Flow.v.
+
 import (
+	"github.com/imroc/req/v3/verifharness/c06peer"
 	"github.com/imroc/req/v3/verifharness/hk"
 )
 
@@ -10,6 +18,8 @@ func runC06(r *hk.Run) {
 	r.Header = "From ReqV Require Import Model.C06Run.\nOpen Scope Z_scope."
 	r.CaseType = "c06_case"
 	r.CheckFn = "c06_check"
+	r.Rule = "flow kernel: op sequences (4..24 ops) over init/add/take/takeInflows/outflow add/available/take with boundary operands (0,1,4095/4096/4097,16383..16385,65535/65536,2^30,2^31-1, exact window edges +-1, negative and over-range values); non-trivial = the sequence contains a panic, a rejected add/take or a batched refund. traces: scripted connections of the real client (req.Client, force-h2, in-memory conn) against a strict scripted peer (concurrent uploads/downloads, SETTINGS changing INITIAL_WINDOW_SIZE/MAX_FRAME_SIZE/MAX_CONCURRENT_STREAMS mid-stream, odd WINDOW_UPDATE increments, RST_STREAM, GOAWAY, slow reads, caller fingerprints); non-trivial = at least one client DATA/HEADERS frame after a peer SETTINGS/WINDOW_UPDATE/RST. Distinct by op sequence / scenario description."
 	rng := hk.NewRand(r.Seed)
-	runFlowOps(r, rng)
+	runFlowOps(r, rng.Fork())
+	c06peer.Run(r, rng.Fork())
 }
